@@ -13,7 +13,7 @@ from ..program import AnalysisError, FunctionInfo, fn_nodes, norm
 from ..callgraph import CallSite
 from ..cfg import cfg_of, CNode
 from ..flow import leaf_hops
-from .common import (ENCODERS, JWS_CONSUME, can_reach_exit, const_value, derives_from_param, enclosing_loops,
+from .common import (shape, ENCODERS, JWS_CONSUME, can_reach_exit, const_value, derives_from_param, enclosing_loops,
                      entries, entry_param_leaves, foreign_leaves, handler_catches, impls, is_const, leaf_param_name,
                      loop_nonempty_established, resolves_to_call, scope_of, sites_calling, succ_by_label)
 
@@ -328,7 +328,7 @@ def r01_5(ctx) -> None:
                 if unprot:
                     ctx.fail("R01.5", fn, node, "the unencoded-payload switch \"b64\" is read from a view that includes the "
                              "unprotected header (not integrity protected): " + ", ".join(sorted(repr(l) for l in unprot)[:3]),
-                             construct=f"{norm(node)} [{E.short}]", slice=res.describe())
+                             construct=f"{shape(eng, fn, node)} [{E.short}]", slice=res.describe())
                 else:
                     ctx.ok("R01.5", f"{E.short} -> {fn.short}:{norm(node)}", "leaves " + res.describe(5))
     ctx.count("R01.5", n, 4, "reads of the b64 header member on consume paths")
